@@ -140,21 +140,43 @@ def c16(ctx: Ctx) -> None:
         # producers
         prods = [c for c in f.children if c.kind == 'function' and any(
             isinstance(x, ast.Name) and x.id == sent for x in ast.walk(c.node))]
+        # ... or a private module-level function that the bridge hands to its worker (with its arguments)
+        u_ = p.unit(A)
+        names_used = {x.id for x in ast.walk(f.node) if isinstance(x, ast.Name)}
+        ext_prods = [c for c in u_.module_scope.children if c.kind == 'function' and c.name.startswith('_') and c.name in names_used
+                     and any(isinstance(x, ast.Name) and x.id == sent for x in ast.walk(c.node))]
+        ge_full = build(f, p, expand_deferred=True) if ext_prods else None
+        prods = prods + ext_prods
         if not prods:
             ctx.violation('C16-TA1', f'{fname}: no producer puts the sentinel', f'{A}:{f.lineno}',
                           'the consumer never stops', construct=construct_key(fname, 'no sentinel producer'))
         for pr in prods:
-            gp = build(pr, p)
-            sites = _put_sites(gp, pr)
+            if pr in ext_prods:
+                # analysed where it is expanded in the bridge's graph: its parameters are bound to the bridge's values there
+                gp = ge_full
+                region = {n.id for n in gp.nodes if n.meta.get('deferred') and n.meta.get('inlined_from') == pr.qualname}
+                ent = [n for n in gp.nodes if n.kind == 'inline_enter' and n.meta.get('name') == pr.qualname]
+                p_entry = ent
+                p_exits = [n for n in gp.nodes if n.id not in region and any(e.src.id in region for e in gp.pred[n.id])]
+                p_normal_exits = [n for n in p_exits if n.kind == 'inline_exit']
+                sites = [t_ for t_ in _put_sites(gp, f) if t_[0].id in region]
+                loops = [n for n in gp.nodes if n.kind == 'for_iter' and n.id in region]
+            else:
+                gp = build(pr, p)
+                region = {n.id for n in gp.nodes}
+                p_entry = [gp.entry]
+                p_exits = [gp.exit, gp.raise_exit]
+                p_normal_exits = [gp.exit]
+                sites = _put_sites(gp, pr)
+                loops = [n for n in gp.nodes if n.kind == 'for_iter' and not n.meta.get('inlined')]
             sput = [n for n, form, q_, arg in sites if isinstance(arg, ast.Name) and arg.id == sent]
-            loops = [n for n in gp.nodes if n.kind == 'for_iter' and not n.meta.get('inlined')]
             lv = None
             if loops and isinstance(loops[0].ast.target, ast.Name):
                 lv = loops[0].ast.target.id
             eput = [n for n, form, q_, arg in sites if n not in sput and isinstance(arg, ast.Name) and arg.id == lv]
             other_puts = [n for n, form, q_, arg in sites if n not in sput and n not in eput]
             # the sentinel put itself may fail (closed loop): its own exception edge is not a path "without" it
-            w = must_pass(gp, [gp.entry], [gp.exit, gp.raise_exit], sput)
+            w = must_pass(gp, p_entry, p_exits, sput)
             w2 = find_path(gp, sput, eput) if sput and eput else None
             ctx.check('C16-TA1', f'{pr.qualname}: {[norm(s.ast) for s in sput][:1]} on every exit, after the elements', f'{A}:{pr.lineno}',
                       w is None and w2 is None and bool(sput),
@@ -172,7 +194,7 @@ def c16(ctx: Ctx) -> None:
             for lp_ in loops:
                 ee = [e for e in gp.succ[lp_.id] if e.label == 'exc']
                 # also calls inside the loop header (next() of a wrapped iterator) are the for_iter node itself
-                w8 = find_path(gp, [], [gp.exit], start_edges=ee) if ee else None
+                w8 = find_path(gp, [], p_normal_exits, start_edges=ee) if ee else None
                 ctx.check('C16-TA8', f'{pr.qualname}: an exception raised by iterating {norm(lp_.ast.iter)} escapes', gp.loc(lp_), bool(ee) and w8 is None,
                           'the worker\'s future carries the source\'s exception to the consumer',
                           'a handler in the producer swallows (some of) the source\'s exceptions: the consumer sees a clean, shorter stream',
@@ -280,38 +302,41 @@ def c16(ctx: Ctx) -> None:
                       'the producer coroutine is driven by a real event loop in the worker thread',
                       why_ + ': nothing is ever queued, not even the sentinel - the consumer blocks for ever',
                       construct=construct_key(fname, 'worker does not run the producer'))
-        # TA6
-        pools = [n for n in g.nodes if n.kind == 'with_enter' and isinstance(n.ast, ast.Call)
-                 and (g.res.path(n.ast.func) or '').endswith('ThreadPoolExecutor')]
-        okp = False
+        # TA6: once the single-worker pool exists, every way out of the bridge joins it
+        creations = [n for n in g.nodes if n.kind == 'call' and (g.res.path(n.ast.func) or '').endswith('ThreadPoolExecutor')]
+        okp = bool(creations) and bool(fut)
         desc = None
-        inside = fut + [cb] + ys + coll
-        if pools and fut:
-            item = pools[0].meta['item']
-            okp = all(item in n.withs for n in inside)
-            a0 = pools[0].ast.args[0] if pools[0].ast.args else None
-            okp = okp and isinstance(a0, ast.Constant) and a0.value == 1
-            desc = f'with {norm(pools[0].ast)}'
-        elif fut:
-            # pool = ThreadPoolExecutor(1); try: ... finally: pool.shutdown(wait=True)   (what __exit__ does)
-            pdefs = [n for n in g.nodes if n.kind == 'store_name' and isinstance(n.meta.get('value'), ast.Call)
-                     and (g.res.path(n.meta['value'].func) or '').endswith('ThreadPoolExecutor')]
-            for pd in pdefs:
-                pv = pd.meta['name']
-                a0 = pd.meta['value'].args[0] if pd.meta['value'].args else None
-                for t_ in {tr for n in inside for tr, part in n.trys if part == 'body'}:
-                    shut = [x for st_ in t_.finalbody for x in ast.walk(st_) if isinstance(x, ast.Call) and isinstance(x.func, ast.Attribute)
-                            and x.func.attr == 'shutdown' and isinstance(x.func.value, ast.Name) and x.func.value.id == pv]
-                    waits = [x for x in shut if not any(k.arg == 'wait' and isinstance(k.value, ast.Constant) and k.value.value is False for k in x.keywords)
-                             and not (x.args and isinstance(x.args[0], ast.Constant) and x.args[0].value is False)]
-                    if waits and all(any(tr is t_ and part == 'body' for tr, part in n.trys) for n in inside) \
-                            and isinstance(a0, ast.Constant) and a0.value == 1:
-                        # nothing between creating the pool and entering the try may leave the pool behind
-                        okp = True
-                        desc = f'{pv} = {norm(pd.meta["value"])}; try: ... finally: {norm(waits[0])}'
-        ctx.check('C16-TA6', f'{fname}: {desc} encloses submit, loop and collection', f'{A}:{f.lineno}', okp,
+        wj = None
+        for cr in creations:
+            a0 = cr.ast.args[0] if cr.ast.args else next((k.value for k in cr.ast.keywords if k.arg == 'max_workers'), None)
+            one = isinstance(a0, ast.Constant) and a0.value == 1
+            # what joins it: leaving a `with` (also one entered through ExitStack.enter_context) on this pool, or shutdown(wait != False)
+            pool_names = {n.meta['name'] for n in g.nodes if n.kind == 'store_name' and n.meta.get('value') is not None
+                          and any(x is cr.ast for x in ast.walk(n.meta['value']))}
+            for n in g.nodes:
+                if n.kind == 'with_enter' and n.ast is cr.ast and isinstance(n.meta['item'].optional_vars, ast.Name):
+                    pool_names.add(n.meta['item'].optional_vars.id)
+            joins = [n for n in g.nodes if n.kind == 'with_exit' and (n.meta['item'].context_expr is cr.ast or (
+                isinstance(n.meta['item'].context_expr, ast.Name) and n.meta['item'].context_expr.id in pool_names))]
+            for n in g.nodes:
+                if n.kind == 'call' and isinstance(n.ast.func, ast.Attribute) and n.ast.func.attr == '__exit__' \
+                        and isinstance(n.ast.func.value, ast.Name) and n.ast.func.value.id in pool_names:
+                    joins.append(n)       # ExitStack leaving a context it entered with enter_context(pool)
+                if n.kind == 'call' and isinstance(n.ast.func, ast.Attribute) and n.ast.func.attr == 'shutdown' \
+                        and isinstance(n.ast.func.value, ast.Name) and n.ast.func.value.id in pool_names:
+                    nowait = any(k.arg == 'wait' and isinstance(k.value, ast.Constant) and k.value.value is False for k in n.ast.keywords) \
+                        or (n.ast.args and isinstance(n.ast.args[0], ast.Constant) and n.ast.args[0].value is False)
+                    if not nowait:
+                        joins.append(n)
+            starts_ = [e for e in g.succ[cr.id] if e.label != 'exc']
+            wj = must_pass(g, [], [g.exit, g.raise_exit], joins, start_edges=starts_)
+            # the work is submitted to this pool, inside the joined region
+            sub_ok = all(find_path(g, [cr], [x], edge_ok=_nonexc) is not None for x in fut + [cb])
+            okp = okp and one and wj is None and bool(joins) and sub_ok
+            desc = f'{norm(cr.ast)} joined by {sorted({norm(j.ast)[:40] for j in joins})}'
+        ctx.check('C16-TA6', f'{fname}: {desc}: every exit after creating the pool joins its worker', f'{A}:{f.lineno}', okp,
                   'leaving the generator joins the single worker', 'the helper thread can outlive the iteration (executor not scoped around it)',
-                  construct=construct_key(fname, 'executor scope'))
+                  witness=render(g, wj), construct=construct_key(fname, 'executor scope'))
         # TA4
         if is_async:
             sync_loops = [n for n in g.nodes if n.kind == 'for_iter' and not n.meta.get('is_async')]
@@ -330,7 +355,7 @@ def c16(ctx: Ctx) -> None:
                 ctx.check('C16-TA4', f'after the inline loop over {norm(sl.ast.iter)} the generator returns', g.loc(sl), w is None,
                           'each element is yielded once', 'after yielding every element inline the iterable is iterated again through the worker thread: every element is delivered twice',
                           witness=render(g, w), construct=construct_key(fname, 'inline path falls through'))
-            okx = any(len(n.ast.args) == 2 and isinstance(n.ast.args[1], ast.Name) and n.ast.args[1].id in {c.name for c in prods} for n in ex)
+            okx = any(len(n.ast.args) >= 2 and isinstance(n.ast.args[1], ast.Name) and n.ast.args[1].id in {c.name for c in prods} for n in ex)
             ctx.check('C16-TA4', f'producer handed to run_in_executor: {[norm(n.ast) for n in ex]}', f'{A}:{f.lineno}', okx,
                       'iteration happens on the helper thread', 'the producer is not run in the executor',
                       construct=construct_key(fname, 'executor hand-off'))
@@ -543,34 +568,37 @@ def c17(ctx: Ctx) -> None:
         rs = [n for n in gw.nodes if n.kind == 'return']
         return bool(rs) and all(norm(resolve(gw, n, n.ast.value)) == f'await {w.params[0]}' for n in rs) \
             and not [n for n in gw.nodes if n.kind == 'except']
-    if len(rets) == 1:
-        v = resolve(g2, rets[0], rets[0].ast.value, keep=('coro',))
-        v = resolve(g2, rets[0], rets[0].ast.value)
-        if isinstance(v, ast.Await):
-            v = v.value
-            if isinstance(v, ast.Call) and g2.res.path(v.func) == 'asyncio.wrap_future' and len(v.args) == 1 and isinstance(v.args[0], ast.Call) \
-                    and g2.res.path(v.args[0].func) == 'asyncio.run_coroutine_threadsafe' and len(v.args[0].args) == 2:
-                c0, l0 = v.args[0].args
-                awp_ = rat.params[0]
+    awp_ = rat.params[0]
 
-                def good_coro(e) -> bool:
-                    if e is None:
-                        return False
-                    if norm(e) == awp_:
-                        return True
-                    if isinstance(e, ast.Call) and isinstance(e.func, ast.Name) and [norm(a_) for a_ in e.args] == [awp_]:
-                        return _transparent_wrapper(e.func.id)
-                    if isinstance(e, ast.IfExp):
-                        return good_coro(e.body) and good_coro(e.orelse)
-                    return False
-                if isinstance(c0, ast.Name) and c0.id != awp_:
-                    # the call site of run_coroutine_threadsafe
-                    site = next((n for n in g2.nodes if n.kind == 'call' and g2.res.path(n.ast.func) == 'asyncio.run_coroutine_threadsafe'), rets[0])
-                    alts = alternatives(g2, site, c0.id)
-                    coro_ok = bool(alts) and all(good_coro(a_) for a_ in alts)
-                else:
-                    coro_ok = good_coro(c0)
-                ok = norm(l0) == rat.params[1] and coro_ok
+    def good_coro(e) -> bool:
+        if e is None:
+            return False
+        if norm(e) == awp_:
+            return True
+        if isinstance(e, ast.Call) and isinstance(e.func, ast.Name) and [norm(a_) for a_ in e.args] == [awp_]:
+            return _transparent_wrapper(e.func.id)
+        if isinstance(e, ast.IfExp):
+            return good_coro(e.body) and good_coro(e.orelse)
+        return False
+    # every value any return can yield is `await wrap_future(run_coroutine_threadsafe(<the awaitable, possibly dressed as a
+    # coroutine by a transparent wrapper>, <the target loop>))`
+    ok = bool(rets)
+    for rn in rets:
+        vals = leaves(g2, rn, rn.ast.value) if rn.ast.value is not None else []
+        ok = ok and bool(vals)
+        for v in vals:
+            v = resolve(g2, rn, v)
+            good = False
+            if isinstance(v, ast.Await):
+                v = v.value
+                if isinstance(v, ast.Call) and g2.res.path(v.func) == 'asyncio.wrap_future' and len(v.args) == 1 and isinstance(v.args[0], ast.Call) \
+                        and g2.res.path(v.args[0].func) == 'asyncio.run_coroutine_threadsafe' and len(v.args[0].args) == 2:
+                    c0, l0 = v.args[0].args
+                    site = next((n for n in g2.nodes if n.kind == 'call' and g2.res.path(n.ast.func) == 'asyncio.run_coroutine_threadsafe'
+                                 and (n.ast.lineno, n.ast.col_offset) == (getattr(v.args[0], 'lineno', -1), getattr(v.args[0], 'col_offset', -1))), rn)
+                    cl = leaves(g2, site, c0) if isinstance(c0, ast.Name) and c0.id != awp_ else [c0]
+                    good = norm(l0) == rat.params[1] and bool(cl) and all(good_coro(x) for x in cl)
+            ok = ok and good
     handlers = [n for n in g2.nodes if n.kind == 'except']
     ctx.check('C17-R4', f'run_aw_threadsafe: {norm(rets[0].ast) if rets else None}', f'{A}:{rat.lineno}', ok and not handlers,
               'submitted to the target loop, bridged back, outcome returned unchanged',
@@ -924,9 +952,17 @@ def c19(ctx: Ctx) -> None:
         isinstance(x, ast.Call) and isinstance(x.func, ast.Name) and x.func.id == parse_p for x in ast.walk(c.node))), None)
     pair = next((c for c in f.children if c.kind == 'function' and c is not tryp and any(
         isinstance(x, ast.Attribute) and x.attr in SPLITTERS for x in ast.walk(c.node))), None)
+    if pair is None:
+        # the split may sit in a private module-level helper of the pair parser
+        sibs = tuple(c.qualname for c in f.children if c.kind == 'function')
+        for c in f.children:
+            if c.kind == 'function' and c is not tryp:
+                gc_ = build(c, p, inline_module_helpers=True, no_inline=sibs)
+                if any(n.kind == 'call' and isinstance(n.ast.func, ast.Attribute) and n.ast.func.attr in SPLITTERS for n in gc_.nodes):
+                    pair = c
     if pair is None or tryp is None:
         raise AnalysisError('parse_to_dict helpers (pair splitter / guarded parser) not found')
-    gp = build(pair, p, inline_nested=False)
+    gp = build(pair, p, inline_module_helpers=True, no_inline=tuple(c.qualname for c in f.children if c.kind == 'function'))
     P = pair.params[0]
     # R1
     splits = [n for n in gp.nodes if n.kind == 'call' and isinstance(n.ast.func, ast.Attribute) and n.ast.func.attr in SPLITTERS
@@ -1126,7 +1162,16 @@ def c19(ctx: Ctx) -> None:
                   'handler covers Exception and returns the input', 'a parser failure escapes (or the value is lost)', witness=render(gt, w),
                   construct=construct_key(tryp.qualname, 'parse failure'))
     rets = [n for n in gt.nodes if n.kind == 'return']
-    okr = all(norm(r_.ast.value) == xp or (isinstance(r_.ast.value, ast.Call) and r_.ast.value in [pc.ast for pc in pcalls]) for r_ in rets)
+    def _ret_ok(r_: Node) -> bool:
+        v = r_.ast.value
+        if v is None:
+            return False
+        if norm(v) == xp or (isinstance(v, ast.Call) and v in [pc.ast for pc in pcalls]):
+            return True
+        rv = resolve(gt, r_, v, keep=(xp,))
+        return norm(rv) == xp or (isinstance(rv, ast.Call) and any(
+            (getattr(rv, 'lineno', None), getattr(rv, 'col_offset', None)) == (pc.ast.lineno, pc.ast.col_offset) for pc in pcalls))
+    okr = all(_ret_ok(r_) for r_ in rets)
     if not okr:
         ctx.violation('C19-R4', f'returns of {tryp.name}: {[norm(r_.ast.value) for r_ in rets]}', f'{PA}:{tryp.lineno}',
                       'the guarded parser returns something other than parse(x) or x', construct=construct_key(tryp.qualname, 'returns'))
@@ -1168,6 +1213,17 @@ def c19(ctx: Ctx) -> None:
         if isinstance(fe, ast.IfExp):
             v = pk_value(fe.test, b)
             return classify_fn(fe.body if v else fe.orelse, b) if v is not None else '?'
+        if isinstance(fe, ast.Subscript) and isinstance(fe.value, ast.Dict):
+            # dispatch table {True: f, False: g}[bool(parse_keys)]
+            sl = fe.slice
+            if isinstance(sl, ast.Call) and isinstance(sl.func, ast.Name) and sl.func.id == 'bool' and len(sl.args) == 1:
+                sl = sl.args[0]
+            v = pk_value(sl, b)
+            if v is not None:
+                for k_, val_ in zip(fe.value.keys, fe.value.values):
+                    if isinstance(k_, ast.Constant) and k_.value is v:
+                        return classify_fn(val_, b)
+            return '?'
         if isinstance(fe, ast.Lambda) and len(fe.args.args) == 1 and isinstance(fe.body, ast.Name) and fe.body.id == fe.args.args[0].arg:
             return 'identity'
         return '?'
